@@ -23,7 +23,7 @@ func C02(c *core.Ctx) {
 		"admitted value in every cell of the width table (region-domain interpretation, shared with C15), and A-SIZED decides the same end to end on optional integer properties in every bound form. B-LAYOUT: in pkg/types each MarshalJSON prints with the layout constant its sibling UnmarshalJSON parses " +
 		"with, on every return path. B-ADDPROPS: both emitters delete the declared keys from the raw map before collecting the remainder; A-SHADOW: in the emitted block the declared keys are enumerated by reflection over the shadow type of the decoded value, also when the schema declares a type of that very name. " +
 		"Not decided: value equality after a round trip, numeric precision, RFC 3339 conformance of the layouts, encoding/json's case-insensitive key matching — runtime quantities."
-	rules := ruleSet("A-TAG", "A-MAP", "A-NOEXTRA", "A-OVERREJ", "A-SHADOW", "A-COLLECT")
+	rules := ruleSet("A-TAG", "A-MAP", "A-NOEXTRA", "A-OVERREJ", "A-SHADOW", "A-COLLECT", "A-REJ")
 	d := gen.DefaultConfig()
 	j := d
 	j.Tags = []string{"json"}
@@ -43,6 +43,10 @@ func C02(c *core.Ctx) {
 			runMember(c, mb, rules, 256, func(w *fam.World, fm *fam.FileModel) []fam.Issue {
 				var keep []fam.Issue
 				for _, is := range checkRoot(w, fm) {
+					if is.Rule == "A-REJ" && strings.Contains(is.Construct, "nested check does not measure") {
+						// a check that indexes another array than the one being iterated refuses valid documents (or panics on them)
+						keep = append(keep, is)
+					}
 					if is.Rule == "A-NOEXTRA" || is.Rule == "A-TAG" || is.Rule == "A-MAP" || is.Rule == "A-OVERREJ" {
 						// nested-array limits (C07) surface here as extra branches as well: they are listed under C07
 						if is.Rule == "A-NOEXTRA" && strings.Contains(is.Msg, "Items") && !strings.Contains(is.Construct, "declared array type") {
@@ -67,7 +71,7 @@ func C02(c *core.Ctx) {
 			var out []fam.Issue
 			for _, is := range checkRoot(w, fm) {
 				// (null for a non-nullable defaulted property is not a VALID document: that clause is C09's alone)
-				if is.Rule == "A-DEF" && !strings.Contains(is.Construct, "null for a defaulted property") {
+				if is.Rule == "A-DEF" && strings.Contains(is.Construct, "guard") {
 					out = append(out, is)
 				}
 			}
